@@ -1195,7 +1195,11 @@ class Interp:
         kwargs = {}
         for k in node.keywords:
             if k.arg is None:
-                raise OutOfSubset('**kwargs')
+                kv = self.ev(k.value, fr)
+                if isinstance(kv, VDict) and all(isinstance(x, str) for x in kv.d):
+                    kwargs.update(kv.d)
+                    continue
+                raise OutOfSubset('**kwargs of a symbolic mapping')
             kwargs[k.arg] = self.ev(k.value, fr)
         return self.call(fn, args, kwargs, fr, node)
 
